@@ -622,13 +622,20 @@ class P_cif(StructureParser):
                 self.anisotropy[ca.label] = ca.anisotropy
         # build a nested list of new atoms:
         newatoms = []
+        taken = set(ca.label for ca in self.stru)
         for i, ca in enumerate(self.stru):
             eca = []  # expanded core atom
+            k = 1
             for j in range(self.eau.multiplicity[i]):
                 a = Atom(ca)
                 a.xyz = self.eau.expandedpos[i][j]
                 if j > 0:
-                    a.label += "_" + str(j + 1)
+                    # number the images, skipping labels that are already in use
+                    k += 1
+                    while ca.label + "_" + str(k) in taken:
+                        k += 1
+                    a.label += "_" + str(k)
+                    taken.add(a.label)
                 if a.anisotropy:
                     a.U = self.eau.expandedUijs[i][j]
                 eca.append(a)
